@@ -91,7 +91,23 @@ def value_set(facts, body, e, depth=0):
                 out |= sv
             return out
     if k == "field" and e[1][0] == "downcast" and e[1][2] == "Some":
-        return option_payload_set(facts, body, e[1][1], depth + 1)
+        r = option_payload_set(facts, body, e[1][1], depth + 1)
+        if r is not None:
+            return r
+    if k == "field":
+        # a component of a value built elsewhere — in another arm, or in a private function that returns it
+        # (`Some((radix, digits))`): the constructors that can have built it, read through calls, phis and projections
+        alts = constructed(facts, body, e)
+        if alts is not None:
+            out = set()
+            for (b2, x2) in alts:
+                if strip_refs(x2) == e and b2 is body:
+                    return None
+                sv = value_set(facts, b2, x2, depth + 1)
+                if sv is None:
+                    return None
+                out |= sv
+            return out
     if k == "field" and body.kind == "closure" and strip_refs(e[1]) == ("arg", 1):
         cr = body.creator()
         if cr is None:
@@ -119,6 +135,51 @@ def value_set(facts, body, e, depth=0):
             cg, _ = facts.callgraph()
         return out if n else None
     return None
+
+
+def constructed(facts, body, e, depth=0):
+    """[(body, expr)]: the expressions one of which `e` evaluates to, with projections (`.i`, `as Variant`) applied to
+    the constructors they select — followed through several definitions (phi) and through the return value of local
+    functions.  None when a projection meets something that is not a visible constructor."""
+    if depth > 10:
+        return None
+    e = strip_refs(e)
+    if e[0] == "phi":
+        out = []
+        for x in e[2]:
+            r = constructed(facts, body, x, depth + 1)
+            if r is None:
+                return None
+            out += r
+        return out
+    if e[0] == "call" and e[1] and e[1].get("local"):
+        cb = facts.body(e[1]["key"])
+        if cb is not None and cb.kind == "fn":
+            return constructed(facts, cb, cb.trace(0), depth + 1)
+        return [(body, e)]
+    if e[0] in ("field", "downcast"):
+        inner = constructed(facts, body, e[1], depth + 1)
+        if inner is None:
+            return None
+        out = []
+        for (b2, x2) in inner:
+            x2 = strip_refs(x2)
+            if x2[0] != "agg":
+                return None
+            if e[0] == "downcast":
+                if x2[1].get("variant") == e[2]:
+                    out.append((b2, x2))
+                elif x2[1].get("variant") is None:
+                    return None
+                continue
+            if e[2] >= len(x2[2]):
+                return None
+            r = constructed(facts, b2, x2[2][e[2]], depth + 1)
+            if r is None:
+                return None
+            out += r
+        return out
+    return [(body, e)]
 
 
 def _const_table_rows(facts, body, e):
@@ -254,6 +315,8 @@ def justify(facts, roles, arity, src, table):
         if e[0] == "call" and e[1] and e[1]["path"].endswith("::len"):
             return "J4 capacity is the length of an existing in-memory collection"
         return None
+    if rule == "strslice":
+        return j_str_slice(facts, b, bi, t)
     if rule == "floatsum":
         targs = t["callee"].get("targs", [])
         if targs and all(x in ("f64", "f32") or not re.search(r"\b[iu](8|16|32|64|128|size)\b", x) for x in targs) and any(x in ("f64", "f32") for x in targs):
@@ -262,24 +325,79 @@ def justify(facts, roles, arity, src, table):
     return None
 
 
+CONVERSION = re.compile(r"as std::convert::(TryInto|Into|TryFrom|From)<.*>>::(try_into|into|try_from|from)$|^std::convert::(TryInto|Into|TryFrom|From)::(try_into|into|try_from|from)$")
+ABS_CALL = re.compile(r"^core::num::<impl [iu](8|16|32|64|128|size)>::(unsigned_abs|abs|abs_diff)$")
+
+
+def _same_value(e):
+    """Peel what does not change an integer's value: references, `?`/ok()/payload plumbing, integer conversions that
+    succeeded, widening casts."""
+    while True:
+        e2 = strip_payload(e)
+        if e2[0] == "call" and e2[1] and CONVERSION.search(e2[1]["path"]) and len(e2[2]) == 1:
+            e = e2[2][0]
+            continue
+        return e2
+
+
+def int_interval(body, e, at, depth=0):
+    """[lo, hi] (None = unbounded) of an integer expression at block `at`, from constants, from the comparisons that
+    hold on every path to `at` (core.implied_comparisons: dominating tests, whatever statement spells them) and
+    through |x|."""
+    from .core import implied_comparisons
+    e = _same_value(e)
+    if e[0] == "const":
+        v = const_value(e[1])
+        if isinstance(v, int) and not isinstance(v, bool):
+            return (v, v)
+        return (None, None)
+    lo = hi = None
+    if e[0] == "call" and e[1] and ABS_CALL.match(e[1]["path"]) and e[1]["path"].endswith(("unsigned_abs", "::abs")) and depth < 3:
+        xl, xh = int_interval(body, e[2][0], at, depth + 1)
+        if xl is not None and xl > 0:
+            lo = xl
+        elif xh is not None and xh < 0:
+            lo = -xh
+        else:
+            lo = 0
+        if xl is not None and xh is not None:
+            hi = max(abs(xl), abs(xh))
+    tys = ""
+    for (op, x, y) in implied_comparisons(body, at):
+        x, y = _same_value(x), _same_value(y)
+        if y == e and x[0] == "const":
+            x, y, op = y, x, CMP_FLIP[op]
+        if x != e or y[0] != "const":
+            continue
+        k = const_value(y[1])
+        if not isinstance(k, int) or isinstance(k, bool):
+            continue
+        if op in ("Ge", "Eq"):
+            lo = k if lo is None else max(lo, k)
+        if op == "Gt":
+            lo = k + 1 if lo is None else max(lo, k + 1)
+        if op in ("Le", "Eq"):
+            hi = k if hi is None else min(hi, k)
+        if op == "Lt":
+            hi = k - 1 if hi is None else min(hi, k - 1)
+        if op == "Ne" and lo is not None and lo == k:
+            lo = k + 1
+    return (lo, hi)
+
+
 def guarded_sub(b, bi, rv):
-    """a - b under a dominating test that a >= b (or a > b) of the same operands."""
-    from .core import edge_dominates, bool_edge
+    """a - b cannot wrap: a test that a >= b (or a > b) of the same operands holds on every path here, or the interval
+    of a (from the dominating comparisons, through |x| and value-preserving conversions) lies above that of b."""
+    from .core import implied_comparisons
     a, c = strip_refs(b.trace(rv["a"])), strip_refs(b.trace(rv["b"]))
-    for sb in b.reachable():
-        tt = b.blocks[sb]["term"]
-        if tt["k"] != "SwitchInt" or tt.get("dty") != "bool":
-            continue
-        e = strip_refs(b.trace(tt["discr"]))
-        if e[0] != "binop" or e[1] not in ("Gt", "Ge", "Lt", "Le"):
-            continue
-        x, y = strip_refs(e[2]), strip_refs(e[3])
-        for truth in (True, False):
-            op = e[1] if truth else {"Gt": "Le", "Ge": "Lt", "Lt": "Ge", "Le": "Gt"}[e[1]]
-            implies = (op in ("Gt", "Ge") and (x, y) == (a, c)) or (op in ("Lt", "Le") and (y, x) == (a, c))
-            if implies and edge_dominates(b, sb, bool_edge(b, sb, truth), bi):
-                return True
-    return False
+    for (op, x, y) in implied_comparisons(b, bi):
+        if (op in ("Gt", "Ge") and (x, y) == (a, c)) or (op in ("Lt", "Le") and (y, x) == (a, c)):
+            return "a test that a >= b holds on every path to the subtraction"
+    alo, _ = int_interval(b, a, bi)
+    _, chi = int_interval(b, c, bi)
+    if alo is not None and chi is not None and alo >= chi:
+        return "the minuend is at least %d and the subtrahend at most %d on every path to the subtraction" % (alo, chi)
+    return None
 
 
 def j_counter(b, bi):
@@ -325,16 +443,192 @@ def j_counter(b, bi):
     return None
 
 
+# --------------------------------------------------------- monotone counters
+# One statement for "a 64-bit counter cannot overflow", whatever carries the counter: the storage (a fold accumulator, a
+# struct field, a local) is only ever *initialised with a small constant* or *stepped by a small positive constant*.
+# Reaching 2^63 then takes more than 2^47 steps of the program — no input of the property's quantifier gets there.
+# Anything else that writes the storage (an operand-controlled value, a sum, a product) leaves the source unjustified.
+SMALL_STEP = 1 << 16
+WIDE_INT = re.compile(r"^(u64|i64|u128|i128)$")
+FOLD_CALL = re.compile(r"(^std::iter::Iterator::|as std::iter::Iterator>::|as std::iter::DoubleEndedIterator>::)(fold|try_fold|rfold|try_rfold)$")
+
+
+def _small_const(o):
+    if o.get("k") != "Const":
+        return None
+    try:
+        v = int(str(o["const"].get("int")))
+    except (TypeError, ValueError):
+        return None
+    return v if abs(v) <= SMALL_STEP else None
+
+
+def _overflow_add(b, bi):
+    """The checked addition `x + c` (c a small positive constant) whose Overflow assert ends block bi."""
+    for s in b.blocks[bi]["stmts"]:
+        if s["k"] == "Assign" and s["rv"]["k"] == "BinaryOp" and s["rv"]["op"] in ("AddWithOverflow", "Add") and WIDE_INT.match(s["rv"].get("opty") or ""):
+            c = _small_const(s["rv"]["b"])
+            if c is not None and c > 0 and s["rv"]["a"]["k"] in ("Copy", "Move"):
+                return s
+    return None
+
+
+def _is_step_of(e, same):
+    """e is `x + c` (checked or not) with x accepted by `same` and c a small positive constant."""
+    e = strip_refs(e)
+    if e[0] == "field" and e[2] == 0:
+        e = strip_refs(e[1])
+    if e[0] == "binop" and e[1] in ("AddWithOverflow", "Add", "AddUnchecked"):
+        c = strip_refs(e[3])
+        if c[0] == "const" and isinstance(const_value(c[1]), int) and not isinstance(const_value(c[1]), bool) and 0 < const_value(c[1]) <= SMALL_STEP:
+            return same(e[2])
+    return False
+
+
+def j_counter_fold(facts, b, bi, add):
+    """The counter is the accumulator of a fold: seeded with a small constant, every path of the step function returns
+    the accumulator unchanged, the accumulator plus a small constant, or an error."""
+    from . import pathsum
+    if b.kind != "closure" or b.arg_count < 3:
+        return None
+    cr = b.creator()
+    if cr is None:
+        return None
+    cb = cr[0]
+    site = None
+    for cbi, ct in cb.calls():
+        if not FOLD_CALL.search(callee_path(ct) or "") or len(ct["args"]) < 3:
+            continue
+        f = strip_refs(cb.trace(ct["args"][2]))
+        if f[0] == "agg" and f[1].get("closure") == b.key:
+            site = (cbi, ct)
+    if site is None:
+        return None
+    seed = strip_payload(cb.xtrace(site[1]["args"][1]))
+    while seed[0] == "cast" and seed[1] == "IntToInt":
+        seed = strip_refs(seed[2])
+    if seed[0] != "const" or not isinstance(const_value(seed[1]), int) or isinstance(const_value(seed[1]), bool) or abs(const_value(seed[1])) > SMALL_STEP:
+        return None
+    acc = ("arg", 2)
+    same = lambda x: strip_payload(x) == acc
+    if not same(b.trace(add["rv"]["a"])):
+        return None
+    w = pathsum.summarize(b)
+    if w.overflow or not w.paths:
+        return None
+    kinds = {"same": 0, "step": 0, "error": 0}
+    for p in w.paths:
+        if p.truncated or p.result is None:
+            return None
+        r = strip_refs(p.result)
+        if (r[0] == "call" and r[1] is not None and "from_residual" in r[1].get("path", "")) or (r[0] == "agg" and r[1].get("variant") == "Err"):
+            kinds["error"] += 1
+            continue
+        y = r
+        while y[0] == "agg" and y[1].get("variant") in ("Ok", "Some") and len(y[2]) == 1:
+            y = strip_refs(y[2][0])
+        if _is_step_of(y, same):
+            kinds["step"] += 1
+        elif same(y):
+            kinds["same"] += 1
+        else:
+            return None
+    return "J4 counter: accumulator of %s seeded with %s; on each of the %d paths of the step function it is returned unchanged (%d), plus a small constant (%d) or the fold ends with an error (%d) — a 64-bit value stepped by a constant cannot overflow" % (
+        (callee_path(site[1]) or "").rsplit("::", 1)[-1], const_value(seed[1]), len(w.paths), kinds["same"], kinds["step"], kinds["error"])
+
+
+def j_counter_field(facts, b, bi, add):
+    """The counter is a field of one of the crate's structs: every write of that field anywhere in the crate is a small
+    constant (constructor), a copy of the same field of another value of the struct, or the field plus a small constant;
+    no mutable reference to the field itself is ever taken."""
+    pl = add["rv"]["a"]["place"]
+    fl = [p for p in pl["proj"] if p["k"] != "Deref"]
+    if len(fl) != 1 or fl[0]["k"] != "Field":
+        return None
+    adt = b.locals[pl["local"]].get("adt") or ""
+    info = facts.adts.get(adt)
+    if not info or info.get("kind") != "struct" or adt.startswith(("std::", "core::", "alloc::", "serde_json::")):
+        return None
+    fi = fl[0]["i"]
+
+    def field_of(body, place):
+        """place is exactly field fi of a value of the struct (through references)"""
+        pr = [p for p in place["proj"] if p["k"] != "Deref"]
+        return len(pr) == 1 and pr[0]["k"] == "Field" and pr[0]["i"] == fi and (body.locals[place["local"]].get("adt") or "") == adt
+
+    def is_field_expr(body, e):
+        e = strip_refs(e)
+        if e[0] != "field" or e[2] != fi:
+            return False
+        return True
+
+    n_init = n_step = n_copy = 0
+    for ob in facts.fns():
+        for obi, si, s in ob.stmts():
+            if s["k"] != "Assign":
+                continue
+            rv = s["rv"]
+            # a reference to (or into) the field escapes: its writes can no longer be enumerated
+            if rv["k"] in ("Ref", "RawPtr") and rv.get("mut") and any(p["k"] == "Field" and p["i"] == fi for p in rv["place"]["proj"]) and (ob.locals[rv["place"]["local"]].get("adt") or "") == adt \
+                    and [p for p in rv["place"]["proj"] if p["k"] != "Deref"][0]["k"] == "Field" and [p for p in rv["place"]["proj"] if p["k"] != "Deref"][0]["i"] == fi:
+                return None
+            if rv["k"] == "Aggregate" and rv.get("adt") == adt and rv.get("agg") == "Adt":
+                if fi >= len(rv["ops"]):
+                    return None
+                o = rv["ops"][fi]
+                if _small_const(o) is not None:
+                    n_init += 1
+                elif o["k"] in ("Copy", "Move") and (field_of(ob, o["place"]) or is_field_expr(ob, ob.trace(o)) and _same_struct_field(ob, ob.trace(o), adt)):
+                    n_copy += 1
+                else:
+                    return None
+                continue
+            if field_of(ob, s["place"]):
+                if rv["k"] == "Use" and _small_const(rv["op"]) is not None:
+                    n_init += 1
+                elif rv["k"] == "Use" and rv["op"]["k"] in ("Copy", "Move") and _is_step_of(ob.trace(rv["op"]), lambda x, _ob=ob: _same_struct_field(_ob, x, adt, fi)):
+                    n_step += 1
+                elif rv["k"] == "Use" and rv["op"]["k"] in ("Copy", "Move") and field_of(ob, rv["op"]["place"]):
+                    n_copy += 1
+                else:
+                    return None
+    if not n_init:
+        return None
+    return "J4 counter: field %s.%s is written only by small constants (%d), copies of the same field (%d) and `field + small constant` (%d) anywhere in the crate, and never borrowed mutably on its own — a 64-bit value stepped by a constant cannot overflow" % (
+        adt.rsplit("::", 1)[-1], (info["variants"][0].get("fields") or [])[fi] if fi < len(info["variants"][0].get("fields") or []) else fi, n_init, n_copy, n_step)
+
+
+def _same_struct_field(body, e, adt, fi=None):
+    """e reads field fi of a value whose type is the struct `adt` (a parameter, a local, through references)."""
+    e = strip_refs(e)
+    if e[0] != "field" or (fi is not None and e[2] != fi):
+        return False
+    base = strip_refs(e[1])
+    if base[0] == "arg":
+        return (body.locals[base[1]].get("adt") or "") == adt
+    if base[0] == "agg":
+        return base[1].get("adt") == adt
+    if base[0] in ("phi", "partial"):
+        return (body.locals[base[1]].get("adt") or "") == adt
+    return False
+
+
 def j_assert(facts, b, bi, t):
     msg = t["msg"]
     if msg == "Overflow":
         j = j_counter(b, bi)
         if j:
             return j
+        add = _overflow_add(b, bi)
+        if add is not None:
+            j = j_counter_fold(facts, b, bi, add) or j_counter_field(facts, b, bi, add)
+            if j:
+                return j
         for s in b.blocks[bi]["stmts"]:
             if s["k"] == "Assign" and s["rv"]["k"] == "BinaryOp" and s["rv"]["op"].startswith("Sub") and re.match(r"^u(8|16|32|64|128|size)$", s["rv"].get("opty") or ""):
-                if guarded_sub(b, bi, s["rv"]):
-                    return "J1 guard: unsigned a - b under a dominating test that a >= b"
+                g = guarded_sub(b, bi, s["rv"])
+                if g:
+                    return "J1 guard: unsigned a - b where " + g
         return None
     if msg in ("DivisionByZero", "RemainderByZero"):
         # cond = Eq(divisor, 0) expected false; find divisor in the BinaryOp that follows
@@ -360,6 +654,113 @@ def j_unwrap(facts, b, bi, t, variant):
         if edge_dominates(b, sb, t_some, bi) and t_some != t_none:
             return "J1 discriminant guard: dominated by the %s edge of the test at bb%d on the same value" % (variant, sb)
     return None
+
+
+# ------------------------------------------------------------- str slicing
+# `s[a..b]` panics unless every bound is a char boundary of s that is <= s.len() (and a <= b).  A bound is read as an
+# *offset of s* from where its value comes from — never from how the slicing is spelled:
+#   0 and s.len(); the position reported by a search of s (find/rfind, the positions of match_indices/char_indices);
+#   a constant k when every path here has established that s has at least k bytes and that byte k-1 is ASCII (so byte k
+#   starts a character); a choice between offsets (phi, unwrap_or).  A count of characters, a length of another string,
+#   a number taken from an operand are not offsets: the source stays unjustified.
+STR_SEARCH = re.compile(r"^core::str::<impl str>::(find|rfind)$")
+STR_POSITIONS = re.compile(r"^core::str::<impl str>::(match_indices|rmatch_indices|char_indices)$")
+ITEM_GETTER = re.compile(r"(^std::iter::(Iterator|DoubleEndedIterator)::|as std::iter::(Iterator|DoubleEndedIterator)>::)(next|next_back|nth|nth_back|last|find|rfind|min|max)$")
+STR_LEN = ("core::str::<impl str>::len", "std::string::String::len")
+
+
+def _bytes_of(e, recv):
+    """e is the byte view of the string recv"""
+    e = strip_refs(e)
+    return e[0] == "call" and e[1] and e[1]["path"] in ("core::str::<impl str>::as_bytes", "std::string::String::as_bytes") and e[2] and strip_refs(e[2][0]) == recv
+
+
+def _ascii_prefix(b, at, recv, k):
+    from .core import implied_comparisons
+    long_enough = False
+    for (op, x, y) in implied_comparisons(b, at):
+        x, y = strip_refs(x), strip_refs(y)
+        if y[0] != "const" and x[0] == "const":
+            x, y, op = y, x, CMP_FLIP[op]
+        is_len = (x[0] == "unop" and x[1] == "PtrMetadata" and _bytes_of(x[2], recv)) or (x[0] == "call" and x[1] and ((x[1]["path"] in STR_LEN and strip_refs(x[2][0]) == recv) or (x[1]["path"] == "core::slice::<impl [T]>::len" and _bytes_of(x[2][0], recv))))
+        if not is_len or y[0] != "const" or not isinstance(const_value(y[1]), int):
+            continue
+        v = const_value(y[1])
+        if (op in ("Ge", "Eq") and v >= k) or (op == "Gt" and v >= k - 1):
+            long_enough = True
+    if not long_enough:
+        return None
+    for sb in sorted(b.reachable()):
+        tt = b.blocks[sb]["term"]
+        if tt["k"] != "SwitchInt" or not b.dominates(sb, at):
+            continue
+        e = strip_refs(b.trace(tt["discr"]))
+        if e[0] == "cindex" and e[2] == k - 1 and not e[3] and _bytes_of(e[1], recv):
+            arm_targets = {tg for _, tg in tt["arms"]}
+            if tt["otherwise"] in arm_targets or at in b.reachable(start=tt["otherwise"]):
+                continue
+            vals = [int(v) for v, _ in tt["arms"]]
+            if vals and all(0 <= v < 128 for v in vals):
+                return "the string has at least %d bytes and byte %d is one of the ASCII characters %s on every path here, so byte %d starts a character" % (k, k - 1, "".join(chr(v) for v in vals), k)
+    return None
+
+
+def str_offset(facts, b, at, recv, e, depth=0):
+    """Why the integer expression e is a char-boundary offset (<= len) of the string expression recv, or None."""
+    if depth > 6:
+        return None
+    e0 = strip_refs(e)
+    if e0[0] == "phi":
+        ws = [str_offset(facts, b, at, recv, x, depth + 1) for x in e0[2]]
+        return "one of: " + " / ".join(ws) if all(ws) else None
+    if e0[0] == "call" and e0[1] and e0[1]["path"] == "std::option::Option::<T>::unwrap_or" and len(e0[2]) == 2:
+        ws = [str_offset(facts, b, at, recv, x, depth + 1) for x in e0[2]]
+        return "%s, else %s" % tuple(ws) if all(ws) else None
+    e1 = strip_payload(e)
+    if e1[0] == "const":
+        v = const_value(e1[1])
+        if v == 0 and not isinstance(v, bool):
+            return "0"
+        if isinstance(v, int) and not isinstance(v, bool) and v > 0:
+            return _ascii_prefix(b, at, recv, v)
+        return None
+    if e1[0] == "call" and e1[1] and e1[1]["path"] in STR_LEN and strip_refs(e1[2][0]) == recv:
+        return "the string's own len()"
+    if e1[0] == "call" and e1[1] and STR_SEARCH.match(e1[1]["path"]) and strip_refs(e1[2][0]) == recv:
+        return "the position %s reports for the same string" % e1[1]["path"].rsplit("::", 1)[-1]
+    if e1[0] == "field" and e1[2] == 0:
+        item = strip_payload(e1[1])
+        if item[0] == "call" and item[1] and ITEM_GETTER.search(item[1]["path"]) and item[2]:
+            it = strip_refs(item[2][0])
+            hops = 0
+            while it[0] == "call" and it[1] and ITEM_KEEPING.search(it[1]["path"]) and it[2] and hops < 8:
+                it = strip_refs(it[2][0])
+                hops += 1
+            if it[0] == "call" and it[1] and STR_POSITIONS.match(it[1]["path"]) and strip_refs(it[2][0]) == recv:
+                return "a position yielded by %s of the same string" % it[1]["path"].rsplit("::", 1)[-1]
+    return None
+
+
+def j_str_slice(facts, b, bi, t):
+    if len(t["args"]) != 2:
+        return None
+    recv = strip_refs(b.trace(t["args"][0]))
+    rng = strip_refs(b.trace(t["args"][1]))
+    if rng[0] != "agg":
+        return None
+    adt = (rng[1].get("adt") or "")
+    if adt == "std::ops::RangeFull":
+        return "J1 offsets: s[..] is the whole string"
+    if adt not in ("std::ops::RangeFrom", "std::ops::RangeTo", "std::ops::Range"):
+        return None
+    ws = [str_offset(facts, b, bi, recv, x) for x in rng[2]]
+    if not ws or not all(ws):
+        return None
+    if adt == "std::ops::Range":
+        lo = strip_payload(rng[2][0])
+        if not (lo[0] == "const" and const_value(lo[1]) == 0):
+            return None          # start <= end is not read
+    return "J1 offsets: every bound of the slice is a char-boundary offset of the sliced string itself (%s)" % "; ".join(ws)
 
 
 class Arity:
@@ -463,18 +864,71 @@ def j_bounds(facts, roles, arity, b, bi, t):
     return None
 
 
+ITEM_KEEPING = re.compile(r"(^std::iter::Iterator::|as std::iter::Iterator>::)(skip|take|rev|peekable|by_ref|fuse|step_by|inspect|skip_while|take_while|filter)$|IntoIterator>::into_iter$")
+LEN_CALLS = ("std::vec::Vec::<T, A>::len", "core::slice::<impl [T]>::len")
+
+
+def view_length(facts, arity, b, op):
+    """Length interval of the slice-like value an index expression applies to, read from what the value *is*:
+    the operand list (arity interval of the table entries bound to the function), or an item of a chunked walk over
+    any slice (`chunks_exact(n)`/`windows(n)`: exactly n; `chunks(n)`: 1..n; `remainder()`: 0..n-1).
+    Returns (lo, hi, description, is_len) with is_len(body, expr) telling whether expr is the length of that very value."""
+    vec = arity.vec_of(b, op) if arity is not None else None
+    if vec is not None:
+        return (vec[0], vec[1], "operand list", lambda body, e: is_len_of_vec(arity, body, e))
+    e = strip_refs(b.trace(op))
+
+    def is_len(body, x, _e=e, _b=b):
+        if body is not _b:
+            return False
+        if x[0] == "call" and x[1] and x[1]["path"] in LEN_CALLS and x[2]:
+            return strip_refs(x[2][0]) == _e
+        if x[0] == "unop" and x[1] == "PtrMetadata":
+            return strip_refs(x[2]) == _e
+        return False
+
+    def chunk_ctor(it):
+        it = strip_refs(it)
+        hops = 0
+        while it[0] == "call" and it[1] and ITEM_KEEPING.search(it[1]["path"]) and it[2] and hops < 8:
+            it = strip_refs(it[2][0])
+            hops += 1
+        if it[0] == "call" and it[1] and len(it[2]) == 2:
+            m = re.match(r"^core::slice::<impl \[T\]>::(chunks_exact|chunks|windows|rchunks_exact|rchunks|chunks_exact_mut|chunks_mut)$", it[1]["path"])
+            n = strip_refs(it[2][1])
+            if m and n[0] == "const" and isinstance(const_value(n[1]), int) and const_value(n[1]) > 0:
+                return m.group(1), const_value(n[1])
+        return None
+
+    if e[0] == "field" and e[2] == 0 and e[1][0] == "downcast" and e[1][2] == "Some":
+        src = strip_refs(e[1][1])
+        if src[0] == "call" and src[1] and re.search(r"::(next|next_back)$", src[1]["path"]) and src[2]:
+            cc = chunk_ctor(src[2][0])
+            if cc:
+                kind, n = cc
+                lo, hi = (n, n) if ("exact" in kind or kind == "windows") else (1, n)
+                return (lo, hi, "item of %s(%d)" % (kind, n), is_len)
+    if e[0] == "call" and e[1] and re.search(r"^std::slice::(ChunksExact|ChunksExactMut|RChunksExact)::<'a, T>::(remainder|into_remainder)$", e[1]["path"]) and e[2]:
+        cc = chunk_ctor(e[2][0])
+        if cc:
+            return (0, cc[1] - 1, "remainder of %s(%d)" % cc, is_len)
+    return None
+
+
 def j_index(facts, roles, arity, b, bi, t, vecop=None, idxop=None):
-    vec = arity.vec_of(b, vecop if vecop is not None else t["args"][0])
+    view = view_length(facts, arity, b, vecop if vecop is not None else t["args"][0])
     idx = strip_refs(b.xtrace(idxop if idxop is not None else t["args"][1]))
     if idx[0] != "const" or not isinstance(const_value(idx[1]), int):
         return None
     c = const_value(idx[1])
-    if vec is None:
+    if view is None:
         return None
-    lo, hi = vec
+    lo, hi, what, is_len = view
     if c < lo:
-        return "J3 arity: index %d < minimum operand count %d of every table entry bound to this function" % (c, lo)
-    # refine along dominating comparison edges on len(vector)
+        if what == "operand list":
+            return "J3 arity: index %d < minimum operand count %d of every table entry bound to this function" % (c, lo)
+        return "J3 view length: index %d < %d = minimum length of an %s" % (c, lo, what)
+    # refine along dominating comparison edges on the length of that very value
     chain = [b]
     cur = b
     while cur.kind == "closure":
@@ -501,7 +955,7 @@ def j_index(facts, roles, arity, b, bi, t, vecop=None, idxop=None):
             if tt["k"] != "SwitchInt":
                 continue
             e = strip_refs(body.xtrace(tt["discr"]))
-            if is_len_of_vec(arity, body, e):
+            if is_len(body, e):
                 # `match v.len() { 0 => …, 1 => …, _ => … }`
                 listed = [int(v) for v, _ in tt["arms"]]
                 for v, tg in tt["arms"]:
@@ -516,9 +970,9 @@ def j_index(facts, roles, arity, b, bi, t, vecop=None, idxop=None):
                 continue
             x, y = strip_refs(e[2]), strip_refs(e[3])
             op = e[1]
-            if is_len_of_vec(arity, body, y) and x[0] == "const":
+            if is_len(body, y) and x[0] == "const":
                 x, y, op = y, x, CMP_FLIP[op]
-            if not (is_len_of_vec(arity, body, x) and y[0] == "const" and isinstance(const_value(y[1]), int)):
+            if not (is_len(body, x) and y[0] == "const" and isinstance(const_value(y[1]), int)):
                 continue
             k = const_value(y[1])
             for truth in (True, False):
@@ -542,7 +996,7 @@ def j_index(facts, roles, arity, b, bi, t, vecop=None, idxop=None):
     while lo in excluded:
         lo += 1
     if c < lo:
-        return "J3 arity interval: operand count ∈ [%s,%s] after %s ⇒ index %d in bounds" % (lo, "∞" if hi == float("inf") else hi, "; ".join(used), c)
+        return "J3 %s: length ∈ [%s,%s] after %s ⇒ index %d in bounds" % ("arity interval" if what == "operand list" else "view length (%s)" % what, lo, "∞" if hi == float("inf") else hi, "; ".join(used), c)
     return None
 
 
@@ -563,7 +1017,109 @@ def is_len_of_vec(arity, body, e):
 
 
 # ------------------------------------------------------------------- loops
-FINITE_ITERS = re.compile(r"^<(std::str::(Chars|CharIndices|Bytes|Split\w*|Lines)|std::slice::(Iter(Mut)?|Chunks(Exact)?|RChunks(Exact)?|Windows|Split\w*)|std::vec::IntoIter|std::iter::(Enumerate|Map|Zip|Skip|Take|Rev|Filter|Peekable|Chain|Cloned|Copied)|std::ops::Range(Inclusive)?|serde_json::map::(Iter|Keys|Values|IntoIter)|std::collections::\w+::\w+)<.*> as std::iter::Iterator>::next$|^<std::ops::Range(Inclusive)?<.*> as std::iter::Iterator>::next$")
+# A loop is bounded when it is *driven* by a value whose type is a finite iterator: every iteration advances it and the
+# loop leaves when it is exhausted.  The type is read structurally (adaptors over a finite source are finite; `&mut I`
+# is I); a generic parameter is resolved to the types of the arguments at every call site of the (private) function.
+FINITE_SOURCES = re.compile(r"^(std::str::(Chars|CharIndices|Bytes|R?Split\w*|Lines|R?MatchIndices|R?Matches|EncodeUtf16|Escape\w+)"
+                            r"|std::slice::(Iter|IterMut|R?Chunks(Exact)?(Mut)?|Windows|R?Split\w*|ArrayChunks|ArrayWindows|EscapeAscii)"
+                            r"|std::vec::(IntoIter|Drain)|std::string::Drain|std::array::IntoIter|std::option::(IntoIter|Iter|IterMut)|std::result::(IntoIter|Iter|IterMut)"
+                            r"|std::iter::(Once|Empty|OnceWith)|std::ops::Range(Inclusive)?|serde_json::map::(Iter|IterMut|Keys|Values|ValuesMut|IntoIter)"
+                            r"|std::collections::\w+::\w+|std::char::(ToLowercase|ToUppercase|EscapeDefault|EscapeUnicode|EscapeDebug))$")
+FINITE_IF_INNER = re.compile(r"^std::iter::(Enumerate|Map|Skip|Take|Rev|Filter|FilterMap|Peekable|Cloned|Copied|StepBy|TakeWhile|SkipWhile|MapWhile|Inspect|Fuse|Scan)$")
+FINITE_IF_ALL = re.compile(r"^std::iter::(Chain|Zip|Flatten|FlatMap)$")
+
+
+def split_type(ty):
+    """'a::B<X, Y<Z>>' -> ('a::B', ['X', 'Y<Z>']); lifetimes among the arguments are dropped."""
+    ty = ty.strip()
+    i = ty.find("<")
+    if i < 0 or not ty.endswith(">") or ty.startswith(("{", "[", "(", "fn", "dyn ", "impl ")):
+        return ty, []
+    head, inner = ty[:i], ty[i + 1:-1]
+    args, depth, cur = [], 0, ""
+    for j, ch in enumerate(inner):
+        if ch in "<([{":
+            depth += 1
+        elif ch in ")]}" or (ch == ">" and inner[j - 1:j] != "-"):
+            depth -= 1
+        if ch == "," and depth == 0:
+            args.append(cur.strip())
+            cur = ""
+        else:
+            cur += ch
+    if cur.strip():
+        args.append(cur.strip())
+    return head, [a for a in args if not re.match(r"^'\w+$", a)]
+
+
+def _used_as_value(facts, key):
+    def is_it(o):
+        c = o.get("const") if isinstance(o, dict) and o.get("k") == "Const" else None
+        f = (c or {}).get("fn")
+        return bool(f) and ((f.get("resolved") or f).get("key") == key or f.get("key") == key)
+    for cb in facts.bodies.values():
+        for _, _, st in cb.stmts():
+            rv = st.get("rv") or {}
+            ops = list(rv.get("ops") or []) + [rv[k] for k in ("op", "a", "b") if isinstance(rv.get(k), dict)]
+            if any(is_it(o) for o in ops):
+                return True
+        for _, t in cb.calls(reach_only=False):
+            if any(is_it(a) for a in t["args"]):
+                return True
+    return False
+
+
+def iter_type_finite(facts, body, ty, depth=0):
+    """Why a value of this type is a finite iterator, or None."""
+    if depth > 8:
+        return None
+    ty = ty.strip()
+    while ty.startswith("&"):
+        ty = re.sub(r"^&\s*('\w+\s+)?(mut\s+)?", "", ty)
+    head, args = split_type(ty)
+    if FINITE_SOURCES.match(head):
+        return head
+    if FINITE_IF_INNER.match(head) and args:
+        w = iter_type_finite(facts, body, args[0], depth + 1)
+        return "%s over %s" % (head.rsplit("::", 1)[-1], w) if w else None
+    if FINITE_IF_ALL.match(head) and args:
+        ws = [iter_type_finite(facts, body, a, depth + 1) for a in args[:2]]
+        return "%s of %s" % (head.rsplit("::", 1)[-1], " and ".join(ws)) if all(ws) else None
+    # a type parameter of the function (or `impl Iterator` in argument position): the types handed in at every call site
+    root = body
+    while root.kind == "closure":
+        nb = facts.body(root.key.rsplit("::{closure#", 1)[0])
+        if nb is None:
+            return None
+        root = nb
+    it = facts.items.get(root.key, {})
+    if not it or it.get("exported") or it.get("reachable"):
+        return None
+    pos = [i for i, pty in enumerate(it.get("inputs") or []) if pty.strip() == ty or re.sub(r"^&\s*('\w+\s+)?(mut\s+)?", "", pty.strip()) == ty]
+    if not pos or not re.match(r"^(\w+|impl .*)$", ty):
+        return None
+    ws = []
+    for cb in facts.fns():
+        for cbi, ct in cb.calls():
+            c = callee_of(ct)
+            if not c or c.get("key") != root.key:
+                continue
+            for i in pos:
+                a = ct["args"][i] if i < len(ct["args"]) else None
+                if a is None or a["k"] not in ("Copy", "Move"):
+                    return None
+                aty = a["place"].get("ty") if a["place"]["proj"] else cb.local_ty(a["place"]["local"])
+                if a["place"]["proj"]:
+                    last = a["place"]["proj"][-1]
+                    aty = last.get("ty")
+                w = iter_type_finite(facts, cb, aty, depth + 1) if aty else None
+                if not w:
+                    return None
+                ws.append(w)
+    # the function must not be used as a value (a call through the value would be a call site not seen above)
+    if ws and _used_as_value(facts, root.key):
+        return None
+    return "type parameter %s = {%s} at its %d call site(s)" % (ty, ", ".join(sorted(set(ws))), len(ws)) if ws else None
 
 
 def loops_of(body):
@@ -585,13 +1141,19 @@ def loops_of(body):
 
 
 def loop_bounded(body, header, blocks, sources):
-    """The loop advances a finite std iterator on every iteration and leaves on None."""
+    """The loop advances a finite iterator on every iteration and leaves when it is exhausted."""
     for bi in blocks:
         t = body.blocks[bi]["term"]
-        if t["k"] != "Call":
+        if t["k"] != "Call" or not t["args"]:
             continue
-        p = callee_path(t)
-        if not p or not FINITE_ITERS.search(p):
+        p = callee_path(t) or ""
+        if not re.search(r"(^std::iter::(Iterator|DoubleEndedIterator)::|as std::iter::(Iterator|DoubleEndedIterator)>::)(next|next_back)$", p):
+            continue
+        a = t["args"][0]
+        if a["k"] not in ("Copy", "Move") or a["place"]["proj"]:
+            continue
+        why = iter_type_finite(body.facts, body, body.local_ty(a["place"]["local"]))
+        if not why:
             continue
         if not all(body.dominates(bi, u) for u in sources):
             continue
@@ -606,7 +1168,7 @@ def loop_bounded(body, header, blocks, sources):
                 if x[0] == "call" and x[3] == bi:
                     r = switch_edges_for_variant(body, sb, "None")
                     if r and r[0] not in blocks:
-                        return "advances %s on every iteration and exits on None" % p
+                        return "advances %s (%s) on every iteration and exits on None" % (p, why)
     return None
 
 
